@@ -503,6 +503,7 @@ def _r3(ctx):
     from ..absint import Interp, TermDomain, term_walk, term_to_nf
     tv = Interp(prog, TermDomain(), follow=lambda c_: c_.name not in ("_max_amplitude",) and c_.cls is None).run(
         h, [("p", q) for q in h.params if q != "self"])
+    tv = _single_quotient(ctx, h, tv)
     if not (isinstance(tv, tuple) and len(tv) == 4 and tv[:2] == ("op", "/")):
         raise AnalysisError("MinerHaibach.lifetime_multiple: returned value is not a quotient")
     den = tv[3]
@@ -610,6 +611,26 @@ def _r4(ctx):
                      "(degree 1 in the counts, counts nowhere else)" % norm_text(R))
 
 
+def _single_quotient(ctx, h, t):
+    """The Haibach lifetime multiple is ONE closed form (total cycles over the two weighted power sums); it needs no case
+    distinction - for a collective entirely below the knee the 'full' sum is empty and the reduced sum still gives a finite
+    multiple.  If the function returns a constant (inf, 0, nan) on some path next to the quotient, that path is the culprit."""
+    from ..absint import term_alternatives
+    alts = term_alternatives(t)
+    quot = [a for a in alts if isinstance(a, tuple) and len(a) == 4 and a[:2] == ("op", "/")]
+    rest = [a for a in alts if a not in quot]
+    if len(quot) == 1 and rest:
+        rets = [s_ for s_ in walk_function(h.node) if isinstance(s_, ast.Return) and s_.value is not None and
+                not isinstance(s_.value, ast.BinOp)]
+        ctx.violated(h, rets[0] if rets else h.node, "%s returns %s on a path of its own instead of the closed form: the Haibach "
+                     "multiple of a collective whose largest amplitude lies below the knee is finite (every class is damaging "
+                     "with the reduced exponent), the predicted Gassner cycles jump to %s at the knee" %
+                     (h.name, norm_text(rets[0].value) if rets else "a constant", norm_text(rets[0].value) if rets else "it"),
+                     text="lifetime multiple constant on a path")
+        return quot[0]
+    return t
+
+
 def _r5(ctx):
     """Decided on the symbolic value of MinerHaibach.lifetime_multiple (helper functions followed): total cycles divided by
     the sum of two weighted power sums  dot(n[M], s[M]**e)  whose masks M1, M2 are complementary comparisons of the same
@@ -621,6 +642,7 @@ def _r5(ctx):
     dom = TermDomain()
     t = Interp(prog, dom, follow=lambda c: c.name not in ("_max_amplitude",) and c.cls is None).run(
         h, [("p", q) for q in h.params if q != "self"])
+    t = _single_quotient(ctx, h, t)
     if not (isinstance(t, tuple) and len(t) == 4 and t[:2] == ("op", "/")):
         raise AnalysisError("lifetime_multiple: the returned value is not a quotient")
     num, den = t[2], t[3]
